@@ -1018,7 +1018,61 @@ def r03_22(chk):
     chk.floor("R03.22", 2, "typed comparisons in IndelMap")
 
 
+def r03_23(chk):
+    chk.rule("R03.23", "GapsOk measures gaps the same way for both alignment classes: in its methods an `if self.is_array` switch only NORMALISES the data (at most one name flows out of it, bound on both branches by the same constructor, e.g. Counter(...)); the count of gap characters and the denominator len(data) * motif_length are computed once, after / outside the switch -- a formula inside one branch makes omit_gap_pos(motif_length=3) keep different columns in Alignment and ArrayAlignment")
+    m = chk.repo.module(ALN)
+    ci = m.cls("GapsOk")
+    n = 0
+    for name, fn in ci.methods.items():
+        if not isinstance(fn, ast.FunctionDef):
+            continue
+        for i in walk_no_nested(fn):
+            if not (isinstance(i, ast.If) and "is_array" in norm(i.test)):
+                continue
+            n += 1
+            k = key(m, f"GapsOk.{name}", "is_array switch only normalises the data")
+
+            def bound(body):
+                out = {}
+                for st in body:
+                    for x in ast.walk(st):
+                        if isinstance(x, ast.Assign):
+                            for tg in x.targets:
+                                if isinstance(tg, ast.Name):
+                                    out.setdefault(tg.id, []).append(x.value)
+                        elif isinstance(x, ast.AugAssign) and isinstance(x.target, ast.Name):
+                            out.setdefault(x.target.id, []).append(x.value)
+                return out
+
+            a, b = bound(i.body), bound(i.orelse)
+            # names read after the switch
+            after = False
+            read_after = set()
+            for st in walk_no_nested(fn):
+                if st is i:
+                    after = True
+                    continue
+                if after and isinstance(st, ast.Name) and isinstance(st.ctx, ast.Load) and not any(st is y for y in ast.walk(i)):
+                    read_after.add(st.id)
+            out_names = sorted((set(a) | set(b)) & read_after)
+            problems = []
+            if len(out_names) > 1:
+                problems.append(f"{out_names} are all computed per representation")
+            for nm in out_names:
+                va, vb = a.get(nm), b.get(nm)
+                if not va or not vb:
+                    problems.append(f"`{nm}` is bound on one branch only")
+                    continue
+                ca, cb = va[-1], vb[-1]
+                same_ctor = isinstance(ca, ast.Call) and isinstance(cb, ast.Call) and norm(ca.func) == norm(cb.func) and norm(ca.func) not in ("sum", "len", "max", "min")
+                if not (same_ctor or ast.dump(ca) == ast.dump(cb)):
+                    problems.append(f"`{nm}` = `{norm(ca)}` for arrays but `{norm(cb)}` otherwise")
+            chk.decide(not problems, "R03.23", k, m.loc(i), f"only {out_names} flows out of the switch, built by the same constructor on both branches", "; ".join(problems) + ": the gap fraction of a column depends on which alignment class asks")
+    chk.floor("R03.23", 1, "GapsOk._get_gap_frac")
+
+
 def run(chk):
+    r03_23(chk)
     r03_22(chk)
     r03_21(chk)
     r03_20(chk)
